@@ -3,12 +3,14 @@ import os
 
 from checks.common import CheckResult, VERIF, replay_header, standard_flow
 
-FILES = [os.path.join(VERIF, "contracts", "node_port.py")]
+FILES = [os.path.join(VERIF, "contracts", f) for f in ("node_port.py", "utils.py", "base.py")]
 NP = "hugr.hugr.node_port."
 TARGETS = [NP + "Node._normalize_index", NP + "Node._index#int", NP + "Node._index#slice",
            NP + "Node.__getitem__#int", NP + "Node.__getitem__#slice", NP + "Node.outputs", NP + "Node.__iter__",
            NP + "Node.out_port", NP + "OutPort.out_port", NP + "Node.inp", NP + "Node.out", NP + "Node.to_node",
-           "lemma:ports_compare_by_index_and_offset"]
+           "lemma:ports_compare_by_index_and_offset",
+           # the count-carrying paths of the graph store (contracts shared with C04)
+           "hugr.hugr.base.Hugr._update_port_count", "hugr.hugr.base.Hugr.add_node"]
 
 
 def concretize(fr, o):
@@ -31,7 +33,7 @@ def concretize(fr, o):
     body += f"""
 from pyvc.rt import load_db, Monitor, ContractViolation, PreconditionFailed
 from hugr.hugr.node_port import Node
-db = load_db({FILES!r})
+db = load_db({FILES[:1]!r})
 mon = Monitor(db, {{"int": list(range(-2, 40))}}); mon.install()
 node = Node({idx}, {{}}, {n!r})
 print("call: Node({idx}, {{}}, {n!r}).{method}({', '.join(args)})")
